@@ -4,7 +4,7 @@ applies to the worktree, full test suite passes, demo fails with the change and 
 import os, sys, json, subprocess, shutil, glob, time
 prop, n, wt = sys.argv[1], sys.argv[2], sys.argv[3]
 src = os.path.join(wt, "out", n)
-dst = "/verif/seeded/%s-%s" % (prop, n)
+dst = "/verif/seeded/%s" % n if n.startswith(prop) else "/verif/seeded/%s-%s" % (prop, n)
 os.makedirs(dst, exist_ok=True)
 env = dict(os.environ, CARGO_TARGET_DIR=os.path.join(wt, "target"), CARGO_NET_OFFLINE="true")
 def run(cmd, timeout=3600):
